@@ -105,6 +105,10 @@ def gen_scenarios(tier, seed):
     for i in range(6 * scale):
         out.append(base(rng, family="send-races-shutdown", pool=rng.choice([1, 2, 4]), n_ext=1, nmsgs=5, flags_fixed=0, dst_mode=0,
                         perturb=rng.choice([200, 500, 800]), sleep_us=rng.choice([100, 300, 1000]), shutdown_behind_gate=4))
+    # C7: shutdown while a gated worker's queue is full (2048 accepted messages = two read batches, stop message does not fit)
+    for i in range(1 * scale):
+        out.append(base(rng, family="full-queue-at-shutdown", pool=rng.choice([1, 2, 4]), n_ext=2, nmsgs=1600, flags_fixed=0, dst_mode=4,
+                        dst_k=0, gate=1, gate_dst=0, shutdown_behind_gate=5))
     # D: sends racing with thread start (STARTING)
     for i in range(8 * scale):
         pool = rng.choice([1, 2, 4, 16])
